@@ -79,7 +79,21 @@ type tspec struct {
 	State string `json:"state,omitempty"`
 	// Node: action stream only: the node a running pod of the snapshot runs on.
 	Node string `json:"node,omitempty"`
+	// Placement constraints (action stream, clusters mixing GPU models): Affinity = required node affinity to the
+	// named nodes (label kai.scheduler/type In [...]); Selector = spec.nodeSelector; Tolerate = the pod tolerates the
+	// taint the cluster's tainted nodes carry. All three are evaluated by the upstream filter plugins, which the
+	// predicates plugin runs AFTER the queue capacity gate of the candidate node.
+	Affinity []string          `json:"affinity,omitempty"`
+	Selector map[string]string `json:"selector,omitempty"`
+	Tolerate bool              `json:"tolerate,omitempty"`
 }
+
+// labels and the taint of the action stream's nodes
+const (
+	nodeNameLabel  = "kai.scheduler/type"
+	nodeModelLabel = "verif/gpu-model"
+	taintKey       = "verif/dedicated"
+)
 
 // snapStates are the situations a pod that belongs to a queue can be in when a snapshot is taken, named after the
 // status the snapshot derives for it (getTaskStatus): pending; gated (scheduling gates); binding (pending, no
@@ -197,6 +211,21 @@ func buildPod(jobName string, t tspec) (*v1.Pod, []*resourceapi.ResourceClaim) {
 		Spec: v1.PodSpec{SchedulerName: "kai-scheduler",
 			Containers: []v1.Container{{Name: "c", Resources: v1.ResourceRequirements{Requests: req}}}},
 		Status: v1.PodStatus{Phase: v1.PodPending},
+	}
+	if len(t.Affinity) > 0 {
+		pod.Spec.Affinity = &v1.Affinity{NodeAffinity: &v1.NodeAffinity{
+			RequiredDuringSchedulingIgnoredDuringExecution: &v1.NodeSelector{NodeSelectorTerms: []v1.NodeSelectorTerm{{
+				MatchExpressions: []v1.NodeSelectorRequirement{{Key: nodeNameLabel, Operator: v1.NodeSelectorOpIn,
+					Values: append([]string{}, t.Affinity...)}}}}}}}
+	}
+	if len(t.Selector) > 0 {
+		pod.Spec.NodeSelector = map[string]string{}
+		for k, v := range t.Selector {
+			pod.Spec.NodeSelector[k] = v
+		}
+	}
+	if t.Tolerate {
+		pod.Spec.Tolerations = []v1.Toleration{{Key: taintKey, Operator: v1.TolerationOpExists, Effect: v1.TaintEffectNoSchedule}}
 	}
 	return pod, claims
 }
